@@ -211,7 +211,7 @@ func (e StdEng) Dot(x, y Tensor, opts ...FuncOpt) (retVal Tensor, err error) {
 				return
 			}
 			var ret interface{}
-			if ret, err = e.Inner(a, b); err != nil {
+			if ret, err = e.Inner(blasOperand(a), blasOperand(b)); err != nil {
 				return nil, errors.Wrapf(err, opFail, "Dot")
 			}
 			return New(FromScalar(ret)), nil
